@@ -46,10 +46,19 @@ ASSUMPTIONS = [
 
 IMPORTS = "From Coq Require Import NArith List.\nFrom DvcData Require Import Model.Transfer Model.PushFetch."
 
-# placements where a remote group would need objects from the cache of another prefix reproduce a suspected
-# genuine defect (see the builder's report); they are generated only when this is True
-MULTI_CACHE_STREAM = False
+# placements where a remote group would need objects from the cache of another prefix reproduce two recorded
+# findings (known_findings.json); they are generated as a separate stream
+MULTI_CACHE_STREAM = True
 SIG_MULTI = "C18:designated-object-not-pushed:remote-group-served-by-several-caches"
+SIG_SPLIT = "C18:dir-object-withheld:directory-split-across-storage-prefixes"
+# oracle checks that fail as a CONSEQUENCE of a recorded finding in the finding streams (an object the
+# mapping designates never arrives; a withheld directory object is nevertheless counted as moved - C11's
+# finding reached through the map; the mirror images on the fetch side); every other check keeps its own
+# signature in every stream
+CONSEQUENCES = (
+    "C18:designated-object-not-pushed", "C18:designated-object-not-fetched",
+    "C18:push-moved-count-vs-arrived", "C18:fetch-moved-count-vs-arrived", "C18:checkout-differs",
+)
 
 
 # --------------------------------------------------------------------------------------
@@ -205,6 +214,16 @@ class Case:
                 return False
         return True
 
+    def klass(self):
+        """None: the passing stream; "multi": a remote group is served by several caches (S2);
+        "split": one cache per group, but a longer prefix re-routes objects under a group's prefixes to
+        another cache and the group's cache was not topped up (S1 when a directory lists such a file)"""
+        if not self.single_cache_per_group():
+            return "multi"
+        if self.placement()[1] and not self.case.get("topup", True):
+            return "split"
+        return None
+
     def all_remote_groups_have_cache(self):
         return all(c is not None for _, c, _ in self.groups(self.map))
 
@@ -302,11 +321,20 @@ def run_real(ctx, C):
     pidx = build_index(C, C.map, odbs)
     one("push", pidx, [tuple(f) for f in case.get("fails") or []])
     one("push", pidx, [])
+    obs["checkout"] = None
+    if C.klass() is not None:
+        after = obs["rounds"][-1]["after"]
+        for kind, k, t in C.items:
+            r = resolve(C.map, k, "remote")
+            if kind == "dir" and r is not None and t not in after[r]:
+                # the finding fired: the directory object cannot be loaded by a fetch (DataIndexDirError);
+                # the fetch side would only repeat it
+                impl.rm_rf(root)
+                return obs
     fidx = build_index(C, C.fmap, odbs)
     if case.get("ffails"):
         one("fetch", fidx, [tuple(f) for f in case["ffails"]])
     one("fetch", fidx, [])
-    obs["checkout"] = None
     if all(covered(C.fmap, k) for _, k, _ in C.items):
         ws = os.path.join(root, "ws")
         errs = []
@@ -399,8 +427,7 @@ def judge(C, obs):
                     if resolve(smap, k, "cache") == s and resolve(smap, k, "remote") is not None}
                 gone = des - set(after[s])
                 if gone:
-                    multi = not C.single_cache_per_group() or C.placement()[1]
-                    sig = SIG_MULTI if multi else f"C18:designated-object-not-{'pushed' if kind == 'push' else 'fetched'}"
+                    sig = f"C18:designated-object-not-{'pushed' if kind == 'push' else 'fetched'}"
                     problems.append((sig, f"round {i}: {sorted(gone)} designated to {s} by the mapping are not in it after a clean {kind}"))
             if kind == "fetch":
                 for c in C.caches:
@@ -415,7 +442,7 @@ def judge(C, obs):
     rounds = obs["rounds"]
     kinds = [r["kind"] for r in rounds]
     last_push = max(i for i, k in enumerate(kinds) if k == "push")
-    last_fetch = max(i for i, k in enumerate(kinds) if k == "fetch")
+    last_fetch = max([i for i, k in enumerate(kinds) if k == "fetch"] or [-1])
     for i, rd in enumerate(rounds):
         smap = C.map if rd["kind"] == "push" else C.fmap
         check_round(i, rd, smap, None, None, i in (last_push, last_fetch))
@@ -435,10 +462,13 @@ def judge(C, obs):
         got = {p: b for p, b in co["files"].items() if p in want}
         if got != want:
             miss = sorted(set(want) - set(got))
-            multi = not C.single_cache_per_group() or C.placement()[1]
-            problems.append((SIG_MULTI if multi else "C18:checkout-differs",
+            problems.append(("C18:checkout-differs",
                              f"checkout from the fetched caches: missing {miss}, "
                              f"wrong {sorted(p for p in got if got[p] != want[p])}"))
+    kl = C.klass()
+    if kl is not None:
+        sig = SIG_MULTI if kl == "multi" else SIG_SPLIT
+        problems = [((sig, what) if s0 in CONSEQUENCES else (s0, what)) for s0, what in problems]
     return problems
 
 
@@ -480,6 +510,8 @@ def model_terms(C, obs):
         rounds.append("{| r_kind := %s; r_map := %s; r_fails := %s |}"
                       % ("RPush" if rd["kind"] == "push" else "RFetch", csmap(C, smap), fails))
     co = obs.get("checkout")
+    if co is not None and co.get("errors"):
+        co = None  # a checkout that hit a missing object stops part-way (C09's subject); the oracle judges it
     inp = ("{| s_idx := %s; s_parse := %s; s_stores := %s; s_sids := %s; s_rounds := %s; s_checkout := %s |}"
            % (clist(items), parse, stores, clist([cN(C.sid(s)) for s in C.stores]), clist(rounds),
               "None" if co is None else f"(Some {csmap(C, C.fmap)})"))
@@ -583,7 +615,7 @@ def gen_base(rng):
     return {"files": files, "items": items, "map": smap, "cls": cls, "pre": {}, "topup": True, "fails": []}
 
 
-def usable(case):
+def usable(case, rng=None):
     C = Case(case)
     if not C.remotes or not C.caches:
         return None
@@ -598,7 +630,9 @@ def usable(case):
         return None
     if multi:
         case["topup"] = False
-    return C
+    elif MULTI_CACHE_STREAM and C.placement()[1] and rng is not None and rng.random() < 0.5:
+        case["topup"] = False
+    return Case(case)
 
 
 def add_pre(rng, case, C):
@@ -664,6 +698,20 @@ CORPUS = [
              [["p", "r"], {"cache": None, "remote": "r1"}]],
      "cls": {"r0": "local", "r1": "base"}, "pre": {}, "topup": True, "fails": [["r1", "f1"]],
      "ffails": [["n0", "f0"]]},
+]
+
+
+CORPUS += [
+    # (S2) two disjoint prefixes, one remote, two caches: collect keeps the first prefix's cache
+    {"files": {"f0": b"A".hex(), "f1": b"B".hex()},
+     "items": [["file", ["x"], "f0"], ["file", ["y"], "f1"]],
+     "map": [[["x"], {"cache": "c0", "remote": "r0"}], [["y"], {"cache": "c1", "remote": "r0"}]],
+     "cls": {"r0": "base"}, "pre": {}, "topup": False, "fails": []},
+    # (S1) a directory whose file sub/b a longer prefix re-routes to another cache and remote
+    {"files": {"f0": b"A".hex(), "f1": b"B".hex()},
+     "items": [["dir", ["d"], [["a", "f0"], ["sub/b", "f1"]]]],
+     "map": [[[], {"cache": "c0", "remote": "r0"}], [["d", "sub"], {"cache": "c1", "remote": "r1"}]],
+     "cls": {"r0": "base", "r1": "base"}, "pre": {}, "topup": False, "fails": []},
 ]
 
 
@@ -764,12 +812,11 @@ def run(ctx):
     while made < nbase and tries < nbase * 30:
         tries += 1
         base = gen_base(ctx.rng)
-        C = usable(base)
+        C = usable(base, ctx.rng)
         if C is None:
             ctx.count("generator:rejected")
             continue
-        if not MULTI_CACHE_STREAM and C.placement()[1] and not base["topup"]:
-            continue
+        ctx.count("stream:" + (C.klass() or "passing"))
         add_pre(ctx.rng, base, C)
         C = Case(base)
         ups = uploads_of(C)
@@ -783,7 +830,7 @@ def run(ctx):
         for fs in subsets:
             c = dict(base)
             c["fails"] = [list(f) for f in fs]
-            if ctx.rng.random() < 0.15:
+            if C.klass() is None and ctx.rng.random() < 0.15:
                 # faults in the first fetch as well: any object a fresh cache has to receive
                 CC = Case(c)
                 pool = [(CC.fresh[gc], t) for r, gc, req in CC.groups(CC.map) for t in sorted(req)]
